@@ -7,11 +7,15 @@ from concurrent.futures import ThreadPoolExecutor
 VERIF = os.path.dirname(os.path.dirname(os.path.abspath(__file__)))
 REPO = os.environ.get("VERIF_REPO", "/repo")
 WORK = os.path.join(VERIF, ".work")
-BUILD = os.path.join(WORK, "build")
-HBIN = os.path.join(WORK, "hbin")
+_alt = "" if REPO == "/repo" else "-" + hashlib.sha1(REPO.encode()).hexdigest()[:8]
+BUILD = os.path.join(WORK, "build" + _alt)      # a scratch copy of the repository (VERIF_REPO) gets its own build tree
+HBIN = os.path.join(WORK, "hbin" + _alt)
 SCRATCH = os.path.join(WORK, "scratch")
 EVID = os.path.join(VERIF, "evidence")
 REPLAYS = os.path.join(VERIF, "replays")
+if _alt:   # runs against a scratch copy never overwrite the real evidence
+    EVID = os.path.join(WORK, "evidence" + _alt)
+    REPLAYS = os.path.join(WORK, "replays" + _alt)
 NCPU = os.cpu_count() or 8
 
 CXX = "clang++-14"
